@@ -391,6 +391,37 @@ reg(Contract('dd.bdd.BDD._init_terminal', [('self', 'mgr'), ('level', 'int')], p
              note='verified for the call from add_var (terminal present); the call from __init__ (empty tables) is bounded'))
 
 
+def empty_tables(S):
+    return And(ForAll([x_], Not(S.dom[x_]), patterns=[S.dom[x_]]), ForAll([M._t], Not(S.ph[M._t]), patterns=[S.ph[M._t]]),
+               ForAll([M._t], Not(S.ch[M._t]), patterns=[S.ch[M._t]]), S.nsucc == 0, S.nvars == 0, S.minfree == 2,
+               ForAll([n_], Not(S.vin[n_]), patterns=[S.vin[n_]]), ForAll([l_], Not(S.lin[l_]), patterns=[S.lin[l_]]))
+
+
+def only_terminal(S):
+    return And(ForAll([x_], S.dom[x_] == (x_ == 1), patterns=[S.dom[x_]]), S.lvl[1] == 0, S.nvars == 0, S.ref[1] == 1, S.ext[1] == 1)
+
+
+reg(Contract('dd.bdd.BDD._init_terminal!empty', [('self', 'mgr'), ('level', 'int')],
+             pre=lambda c: [('empty-tables', empty_tables(c.S)), ('level', c.a.level == 0)],
+             post=lambda c: [(n, g) for n, g in wf(c.S1, c.uses) if n != 'enc-lastlen'] + [('only-the-terminal', only_terminal(c.S1)),
+                                                ('switches-kept', And(c.S1.lastlen == c.S0.lastlen, c.S1.ctx == c.S0.ctx))],
+             modifies=['lvl', 'ph', 'pv', 'ref', 'dom', 'lo', 'hi', 'indeg', 'ext', 'sem', 'sem2', 'sem3', 'sem1', 'qex', 'qfa', 'hl', 'rt', 'nsucc'],
+             ret='none', uses=None, note='the call from BDD.__init__: empty tables; establishes the invariant for the manager that holds only the terminal'))
+REG['dd.bdd.BDD._init_terminal!empty'].entry_ref_empty = True
+
+reg(Contract('dd.bdd._assert_valid_ordering', [('levels', 'any')], pre=lambda c: [], post=lambda c: [], ret='none', mgr='-', assumed=True,
+             note='assumed: accepts the empty dict (checks that the given levels are a permutation of 0..n-1; set arithmetic, bounded only)'))
+
+reg(Contract('dd.bdd.BDD.__init__!empty', [('self', 'mgr'), ('levels', 'none')],
+             pre=lambda c: [], post=lambda c: wf(c.S1, c.uses) + [
+                 ('only-the-terminal', only_terminal(c.S1)), ('reordering-off', And(c.S1.lastlen == -1, Not(c.S1.ctx))),
+                 ('no-variables-no-cache', And(ForAll([n_], Not(c.S1.vin[n_]), patterns=[c.S1.vin[n_]]),
+                                               ForAll([M._t], Not(c.S1.ch[M._t]), patterns=[c.S1.ch[M._t]])))],
+             modifies=M.ALLF, ret='none', uses=None,
+             note='BDD() without arguments: the base case of the invariant (every family); with a dict of levels the constructor calls '
+                  'add_var per entry (proved separately; insertion order matters: known finding D4)'))
+
+
 def cv_bad(S, a):
     return Or(Not(S.vin[a.var]), And(Not(a.level_none), a.level != S.v2l[a.var]))
 
